@@ -161,6 +161,15 @@ def run(ctx):
         check_string(ctx, s, 'boundary')
     ctx.count('boundary_strings', 4 * (len(bases) * 6 + 2))
 
+    # control characters around otherwise valid names (a '$'-anchored pattern accepts a trailing line feed)
+    valid = ['a.b', 'a_1.B2', ':1.2', 'a-b.c', '/a/b', '/', 'Member_1', 'x']
+    for v in valid:
+        for ch in ('\n', '\r', '\r\n', '\0', '\t', '\x0b', '\x0c', '\x1c', '\x85', '\u2028'):
+            for s_ in (v + ch, ch + v, v[:1] + ch + v[1:], v + ch + v):
+                check_string(ctx, s_, 'control-char')
+                check_string(ctx, s_, 'control-char-reversed', list(reversed(VALIDATORS)))
+    ctx.count('control_char_strings', len(valid) * 10 * 4)
+
     # random long strings, biased towards near-valid shapes
     nrand = (4000 if ctx.tier == 'quick' else 40000) // shard_n + 1
     weights = [12, 4, 2, 5, 1, 1, 4, 1, 1]
@@ -182,7 +191,8 @@ def run(ctx):
     # constructor matrix: all strings up to length 3 plus selected longer ones
     names = [''.join(t) for ln in range(0, 4) for t in itertools.product(ALPHABET, repeat=ln)]
     names += ['a.b.', 'a.b:c', ':.a', ':1.2', 'a.b.c', '/a/b', '/a//b', '/a/', 'a..b', '.a.b', 'a.1b', 'a-b.c',
-              'a' * 255, 'a.' + 'b' * 253, 'a.' + 'b' * 254, '/' + 'a' * 300, 'M' * 256, 'a b.c', 'a.b\n']
+              'a' * 255, 'a.' + 'b' * 253, 'a.' + 'b' * 254, '/' + 'a' * 300, 'M' * 256, 'a b.c', 'a.b\n', 'M\n', '/a\n',
+              ':1.2\n', 'a.b\r', '\na.b', 'M\0', '/a/b\n', 'a.b\n.c']
     if shard_i == 0:
         constructor_matrix(ctx, names)
     ctx.require(ctx.counters.get('evaluations', 0) > 1000, 'too few evaluations')
